@@ -149,4 +149,11 @@ theorem C14_compat_iff (major minor patch : Nat) :
     isCompatible major minor patch = true ↔ (major = versionMajor ∧ minor = versionMinor) := by
   simp [isCompatible]
 
+/-- "a session that asked for streaming …": a client asks exactly when it was built with the stream option, over either
+transport and whatever the other options (the flags byte `ClientBuilder` puts into its session frame, as the daemon's
+`Session::is_stream` reads it) -/
+theorem C14_client_asks_for_streaming_iff_option (unix control command failsafe stream : Bool) :
+    wantsStream (clientFlags unix control command failsafe stream) = stream := by
+  cases unix <;> cases control <;> cases command <;> cases failsafe <;> cases stream <;> decide
+
 end Glonax.Thm.C14
